@@ -135,6 +135,7 @@ pub struct Sh {
 	/// task and one flush task: such work is never nested inside itself)
 	in_compaction: Cell<u32>,
 	in_flush: Cell<u32>,
+	closing: Cell<bool>,
 }
 
 pub const SCAN_LO: &[u8] = &[0u8];
@@ -266,6 +267,7 @@ impl Sh {
 			failed_commits: RefCell::new(Vec::new()),
 			in_compaction: Cell::new(0),
 			in_flush: Cell::new(0),
+			closing: Cell::new(false),
 		})
 	}
 
@@ -497,6 +499,97 @@ impl Sh {
 		res
 	}
 
+	/// close() issued while commits are in flight: drive close() from the root while the
+	/// actors keep being polled; afterwards every commit() must have returned.
+	pub async fn close_concurrently(self: &Rc<Self>) {
+		let t = match self.tree.borrow_mut().take() {
+			Some(t) => t,
+			None => return,
+		};
+		self.closing.set(true);
+		self.ev("close (concurrent)".into());
+		let mut fut = Box::pin(tokio::task::unconstrained(t.close()));
+		let flag = Arc::new(Flag(AtomicBool::new(true)));
+		let waker = Waker::from(Arc::clone(&flag));
+		let mut turns = 0u32;
+		let mut result = None;
+		while result.is_none() {
+			let mut cx = Context::from_waker(&waker);
+			if let Poll::Ready(r) = fut.as_mut().poll(&mut cx) {
+				result = Some(r);
+				break;
+			}
+			// the plan decides nothing here any more: everybody gets turns
+			tokio::task::yield_now().await;
+			self.collect_gates();
+			self.release_gates();
+			for a in 0..self.actors.len() {
+				let has = self.actors[a].try_borrow().map(|x| x.fut.is_some()).unwrap_or(false);
+				if has {
+					self.poll_only(a);
+				}
+			}
+			turns += 1;
+			if turns % 3 == 0 {
+				tokio::time::advance(std::time::Duration::from_millis(50)).await;
+				self.stats.borrow_mut().sim_time_ns += 50_000_000;
+			}
+			if turns > 5000 {
+				self.fail("no_progress", "close() did not return within 5000 scheduler turns (250 s of simulated time) although every task and committer kept getting turns".into());
+				return;
+			}
+		}
+		drop(fut);
+		if let Some(Err(e)) = result {
+			if !self.faults_active.get() {
+				self.fail("close_failed", e.to_string());
+			}
+		}
+		// every commit() call must return now
+		for round in 0..400 {
+			let mut any = false;
+			for a in 0..self.actors.len() {
+				let has = self.actors[a].try_borrow().map(|x| x.fut.is_some()).unwrap_or(false);
+				if has {
+					any = true;
+					self.poll_only(a);
+				}
+			}
+			if !any {
+				break;
+			}
+			tokio::task::yield_now().await;
+			self.collect_gates();
+			self.release_gates();
+			if round % 3 == 0 {
+				tokio::time::advance(std::time::Duration::from_millis(50)).await;
+			}
+			if round == 399 {
+				let stuck: Vec<usize> = (0..self.actors.len()).filter(|a| self.actors[*a].try_borrow().map(|x| x.fut.is_some()).unwrap_or(false)).collect();
+				self.fail("no_progress", format!("commit() of actors {:?} never returned after close() had returned", stuck));
+				return;
+			}
+		}
+		self.drop_actors();
+		drop(t);
+		self.free_run.set(true);
+		for _ in 0..4 {
+			tokio::task::yield_now().await;
+			self.collect_gates();
+			self.release_gates();
+		}
+		self.free_run.set(false);
+	}
+
+	fn poll_only(self: &Rc<Self>, ai: usize) {
+		if let Ok(mut g) = self.actors[ai].try_borrow_mut() {
+			let saved = self.cur_actor.replace(Some(ai));
+			let act = &mut *g;
+			self.poll_commit(act, ai);
+			self.cur_actor.set(saved);
+		}
+	}
+
 	/// Simulated crash: freeze the disk, then drop everything.
 	pub async fn crash_store(&self) {
 		ip::freeze();
@@ -566,7 +659,9 @@ impl Sh {
 					}
 				}
 				Step::Close => {
-					if let Err(e) = self.close_store().await {
+					if self.plan.params.get("close_concurrent").copied().unwrap_or(0) == 1 {
+						self.close_concurrently().await;
+					} else if let Err(e) = self.close_store().await {
 						if !self.faults_active.get() {
 							self.fail("close_failed", e);
 						}
@@ -630,7 +725,17 @@ impl Sh {
 				let stuck: Vec<usize> = (0..self.actors.len())
 					.filter(|a| self.actors[*a].try_borrow().map(|x| x.fut.is_some()).unwrap_or(false))
 					.collect();
-				self.fail("no_progress", format!("commit() of actors {:?} never returned after faults stopped and background work drained", stuck));
+				let diag = match self.tree() {
+					Some(t) => format!(
+						"immutables={} level_shape={:?} bg_error={:?} gates={:?}",
+						t.verif_immutable_count(),
+						t.verif_level_shape().iter().map(|l| l.len()).collect::<Vec<_>>(),
+						t.verif_background_error(),
+						self.gates.borrow().iter().map(|g| g.0).collect::<Vec<_>>()
+					),
+					None => "store closed".into(),
+				};
+				self.fail("no_progress", format!("commit() of actors {:?} never returned after faults stopped and background work drained ({})", stuck, diag));
 				return;
 			}
 		}
@@ -1432,6 +1537,9 @@ impl Sh {
 	/// checkers; here: on fault-free runs only conflict/retry are legitimate.
 	fn commit_failed(&self, ai: usize, txn: u64, cls: &str, e: &KvError, start_seq: u64, keys: Vec<Key>) {
 		self.failed_commits.borrow_mut().push(FailedCommit { actor: ai, txn, class: cls.to_string(), start_seq, keys });
+		if self.closing.get() && cls == "PipelineStall" {
+			return; // shutdown in progress: the commit was refused, which is a legitimate outcome
+		}
 		if !self.faults_active.get() && cls != "Conflict" && cls != "Retry" {
 			self.fail("commit_error", format!("actor {} txn{} commit failed on a fault-free run: {}", ai, txn, e));
 		}
